@@ -102,23 +102,7 @@ def run(tier):
             if pv is not None and pv != int(v["v"]):
                 raise common.ToolError("oracle self-check failed: %r python=%s" % (v, pv))
     # jobs: batches of 150 cases; one consulted program with a clause per case
-    jobs = []
     B = 150
-    for bi in range(0, len(vecs), B):
-        batch = vecs[bi:bi + B]
-        prog = []
-        steps = []
-        for j, v in enumerate(batch):
-            e = expr(v)
-            prog.append("c%d(X) :- X is %s." % (j, e))
-        steps.append({"consult": "\n".join(prog) + "\n"})
-        for j, v in enumerate(batch):
-            e = expr(v)
-            steps.append({"q": "catch(c%d(X), error(E,_), true)." % j, "max": 2})
-            steps.append({"q": "catch(X is %s, error(E,_), true)." % e, "max": 2})
-            steps.append({"q": "T = %s, catch(X is T, error(E,_), true)." % e, "max": 2})
-        jobs.append({"id": bi, "steps": steps, "timeout": 120})
-    results = run_jobs(jobs, workers=8, job_timeout=120)
     ctxs = ["clause", "query", "walk"]
 
     def cls(n):
@@ -128,39 +112,70 @@ def run(tier):
                 return b
         return 128
 
-    for job in jobs:
-        bi = job["id"]
-        batch = vecs[bi:bi + B]
-        r = results.get(bi, {"crash": "missing"})
-        if "crash" in r:
-            rep.violation("batch %d crashed: %s" % (bi, r["crash"]), {"job": job, "result": r})
-            continue
-        rs = r["res"][1:]
-        for j, v in enumerate(batch):
-            exp = expected(v)
-            for k, ctx in enumerate(ctxs):
-                out = rs[3 * j + k]
-                rep.case((v["kind"], v["op"], cls(int(v["x"])), cls(int(v["y"])), ctx))
-                got = None
-                if "panic" in out:
-                    got = ("panic", out["panic"])
-                else:
-                    a = out["a"]
-                    if len(a) >= 1 and isinstance(a[0], dict) and "b" in a[0]:
-                        b = a[0]["b"]
-                        if "E" in b and "X" not in b:
-                            got = ("err", terms.from_h(b["E"]))
-                        elif "X" in b and "i" in b["X"] and "E" not in b:
-                            got = ("val", int(b["X"]["i"]))
-                        else:
-                            got = ("other", b)
+    pending, rounds, clause_only = list(vecs), 0, False
+    while pending and rounds < 12:
+        rounds += 1
+        B = 150 if rounds == 1 else 4        # after a panic: small batches, so that one panicking case costs few followers
+        jobs = []
+        for bi in range(0, len(pending), B):
+            batch = pending[bi:bi + B]
+            prog = []
+            steps = []
+            for j, v in enumerate(batch):
+                e = expr(v)
+                prog.append("c%d(X) :- X is %s." % (j, e))
+            steps.append({"consult": "\n".join(prog) + "\n"})
+            for j, v in enumerate(batch):
+                e = expr(v)
+                steps.append({"q": "catch(c%d(X), error(E,_), true)." % j, "max": 2})
+                steps.append({"q": "catch(X is %s, error(E,_), true)." % e, "max": 2})
+                steps.append({"q": "T = %s, catch(X is T, error(E,_), true)." % e, "max": 2})
+            jobs.append({"id": bi, "steps": steps, "timeout": 120, "fresh": True})
+        results = run_jobs(jobs, workers=8, job_timeout=120)
+        redo = []
+        for job in jobs:
+            bi = job["id"]
+            batch = pending[bi:bi + B]
+            r = results.get(bi, {"crash": "missing"})
+            if "crash" in r:
+                rep.violation("batch %d crashed: %s" % (bi, r["crash"]), {"job": job, "result": r})
+                continue
+            rs = r["res"][1:]
+            lost = False      # a panic makes the harness start a new machine: the consulted clauses of this batch are gone
+            for j, v in enumerate(batch):
+                exp = expected(v)
+                for k, ctx in enumerate(ctxs):
+                    out = rs[3 * j + k]
+                    if ctx == "clause" and lost:
+                        redo.append(v)
+                        continue
+                    if clause_only and ctx != "clause":
+                        continue
+                    rep.case((v["kind"], v["op"], cls(int(v["x"])), cls(int(v["y"])), ctx))
+                    got = None
+                    if "panic" in out:
+                        got = ("panic", out["panic"])
+                        lost = True
                     else:
-                        got = ("other", a)
-                if got != exp:
-                    kind = "negshift" if (v["op"] in (">>", "<<") and int(v["x"]) < 0) else "general"
-                    sig = "%s expr=%s ctx=%s expected=%s got=%s" % (kind, expr(v), ctx, exp, got)
-                    rep.violation(sig, {"vector": v, "context": ctx, "expected": exp, "got": got,
-                                        "query": job["steps"][1 + 3 * j + k] if k else prog_line(batch, j)})
+                        a = out["a"]
+                        if len(a) >= 1 and isinstance(a[0], dict) and "b" in a[0]:
+                            b = a[0]["b"]
+                            if "E" in b and "X" not in b:
+                                got = ("err", terms.from_h(b["E"]))
+                            elif "X" in b and "i" in b["X"] and "E" not in b:
+                                got = ("val", int(b["X"]["i"]))
+                            else:
+                                got = ("other", b)
+                        else:
+                            got = ("other", a)
+                    if got != exp:
+                        kind = "negshift" if (v["op"] in (">>", "<<") and int(v["x"]) < 0) else "general"
+                        sig = "%s expr=%s ctx=%s expected=%s got=%s" % (kind, expr(v), ctx, exp, got)
+                        rep.violation(sig, {"vector": v, "context": ctx, "expected": exp, "got": got,
+                                            "query": job["steps"][1 + 3 * j + k] if k else prog_line(batch, j)})
+        pending, clause_only = redo, True
+    if pending:
+        raise common.ToolError("%d clause-context cases could not be run after %d rounds" % (len(pending), rounds))
     for v in vecs[:: max(1, len(vecs) // 5)]:
         rep.sample({"expr": expr(v), "expected": expected(v)})
     rep.exhaustive = True
